@@ -637,9 +637,20 @@ func (c *census) scanBody(a *apkg, fn string, body ast.Node) {
 				return true // called in place: its body belongs to this function anyway
 			}
 			if _, isFn := callee.(*types.Func); !isFn {
-				desc := "?"
-				if callee != nil {
-					desc = callee.Name()
+				// where does the function value come from: a parameter (a callback handed down by the
+				// caller, whose body is scanned with the function that creates it), a field, a variable
+				desc := "expr"
+				if v, ok := callee.(*types.Var); ok {
+					switch {
+					case v.IsField():
+						desc = "field:" + v.Name()
+					case v.Pkg() != nil && v.Parent() == v.Pkg().Scope():
+						desc = "var:" + v.Name()
+					case c.isParam(fn, body, v):
+						desc = "param:" + v.Name()
+					default:
+						desc = "local:" + v.Name()
+					}
 				}
 				add(c.dyn, fn, fn+":"+desc)
 			}
@@ -661,6 +672,24 @@ func (c *census) scanBody(a *apkg, fn string, body ast.Node) {
 		}
 		return true
 	})
+}
+
+// isParam: is v declared in the parameter list of the function (or of a function literal inside it)
+func (c *census) isParam(fn string, body ast.Node, v *types.Var) bool {
+	in := func(fl *ast.FieldList) bool {
+		return fl != nil && fl.Pos() <= v.Pos() && v.Pos() < fl.End()
+	}
+	if d, ok := c.fnDecl[fn]; ok && in(d.Type.Params) {
+		return true
+	}
+	found := false
+	ast.Inspect(c.fnBody(fn, body), func(n ast.Node) bool {
+		if fl, ok := n.(*ast.FuncLit); ok && in(fl.Type.Params) {
+			found = true
+		}
+		return !found
+	})
+	return found
 }
 
 // elemTarget: the element of a map / slice that is not a fresh local.  A slice or array of
